@@ -26,6 +26,8 @@ pub enum Variant {
     HeaderIgnoredMarker { dict: u32 },
     /// 5-byte header, UseProvided(Some(n)), no marker
     ShortHeaderProvided { dict: u32 },
+    /// .lzma, size in header; LzmaParams::read_header + raw::LzmaDecoder
+    RawFromHeader { dict: u32 },
     /// raw decoder, size known
     RawKnown { dict: u32 },
     /// raw decoder, marker
@@ -97,6 +99,7 @@ pub fn build(lc: u32, lp: u32, pb: u32, prog: &[Sym], var: Variant, model_dict: 
             f.extend_from_slice(&e.payload);
             Case::Dec { fmt: Fmt::Lzma, opts: Opts { size: SizeOpt::Provided(Some(n)), ..Opts::default() }, input: Hex(f), rd: Rd { bufreader: 2, ..Rd::default() }, sk: Sk::default() }
         }
+        Variant::RawFromHeader { dict } => Case::RawLzmaHdr { opts: Opts::default(), input: Hex(enc::lzma_file(lc, lp, pb, dict, Some(n), &e.payload)) },
         Variant::RawKnown { dict } => Case::RawLzma { lc, lp, pb, dict, size: Some(n), memlimit: None, ops: vec![RawOp::Dec(Hex(e.payload.clone()))] },
         Variant::RawMarker { dict } => Case::RawLzma { lc, lp, pb, dict, size: None, memlimit: None, ops: vec![RawOp::Dec(Hex(e.payload.clone()))] },
     };
@@ -113,6 +116,10 @@ pub fn exec(case: &Case) -> (V, Vec<u8>, usize, usize) {
             }
             let (v, o, c) = dec_plain(*fmt, opts, &input.0);
             (v, o, c, input.0.len())
+        }
+        Case::RawLzmaHdr { input, .. } => {
+            let o = crate::cases::run_case(case);
+            (o.v, o.out.0, o.consumed, input.0.len())
         }
         Case::RawLzma { lc, lp, pb, dict, size, memlimit, ops } => match RawH::new_lzma(*lc, *lp, *pb, *dict, *size, *memlimit) {
             Ok(mut h) => {
@@ -239,6 +246,7 @@ pub fn run(tier: Tier) -> i32 {
                 Variant::KnownBytewise { dict: 4097 },
                 Variant::HeaderIgnoredMarker { dict: 5000 },
                 Variant::ShortHeaderProvided { dict: 0x1801 },
+                Variant::RawFromHeader { dict: 0x2000 },
             ];
             let mut first = true;
             for var in variants {
@@ -260,7 +268,7 @@ pub fn run(tier: Tier) -> i32 {
                 }
             }
         });
-        ctx.scope_done(&name, total * nset, t0, &format!("{} programs x {} lc/lp/pb x 9 presentations", total, nset));
+        ctx.scope_done(&name, total * nset, t0, &format!("{} programs x {} lc/lp/pb x 10 presentations", total, nset));
     }
     }
 
@@ -498,6 +506,32 @@ pub fn run(tier: Tier) -> i32 {
         }
     }
 
+    // ------------------------------------------------------------------ scope 2b: every byte value as literal, as matched literal and as match byte
+    {
+        let name = "literal-values/256x256";
+        if ctx.may_start(name) {
+            let t0 = Instant::now();
+            let settings: Vec<(u32, u32, u32)> = tier.pick(vec![(3, 0, 2), (0, 0, 0)], vec![(3, 0, 2), (0, 0, 0), (8, 0, 0), (4, 4, 4), (0, 4, 0)]);
+            par_for((256 * 256 * settings.len()) as u64, |i| {
+                let (lc, lp, pb) = settings[i as usize / 65536];
+                let m = ((i >> 8) & 0xFF) as u8;
+                let v = (i & 0xFF) as u8;
+                // literal m; literal q; copy (m q); matched literal v against match byte m; short rep (= m again... the byte
+                // two back); matched literal m against v's predecessor; plain literals v, m in the contexts they create
+                let q = m.wrapping_mul(31).wrapping_add(0x5B);
+                let prog = [Sym::L(m), Sym::L(q), Sym::M(2, 2), Sym::L(v), Sym::S, Sym::L(m), Sym::L(v), Sym::L(v ^ 0xFF), Sym::M(1, 2), Sym::L(m ^ 0x80)];
+                let var = if i % 2 == 0 { Variant::Known { dict: 4096 } } else { Variant::RawMarker { dict: 16 } };
+                if let Some((b, _)) = build(lc, lp, pb, &prog, var, 16) {
+                    ctx.eval(1);
+                    ctx.nontriv(1);
+                    ctx.states.fetch_add(1, Ordering::Relaxed);
+                    ctx.transitions.fetch_add(1, Ordering::Relaxed);
+                    check_exact(&ctx, &b, &format!("program [{}] lc={} lp={} pb={} {:?}", prog_str(&prog), lc, lp, pb, var));
+                }
+            });
+            ctx.scope_done(name, (65536 * settings.len()) as u64, t0, "every (match byte, literal) pair as plain and as matched literal");
+        }
+    }
     // ------------------------------------------------------------------ scope 3c: windows larger than 64 KiB that wrap (several times)
     {
         let name = "wrap/public+raw/dict>64KiB";
